@@ -105,7 +105,7 @@ Held(b) == IF b = <<0>> THEN <<120>> ELSE b
 
 NewTag(h, isEnd) == [h EXCEPT !.st = "tagname", !.tag = <<>>, !.end = isEnd, !.attrs = <<>>, !.an = <<>>, !.kind = "",
                               !.tv = <<>>, !.ty = "", !.self = FALSE]
-FinishName(h) == [h EXCEPT !.attrs = IF Len(@) < 8 THEN Append(@, AttrClass(h.an)) ELSE @, !.kind = AttrKind(h.an)]
+FinishName(h) == [h EXCEPT !.attrs = IF Len(@) < 24 THEN Append(@, AttrClass(h.an)) ELSE @, !.kind = AttrKind(h.an)]
 StartValue(h, st) == [h EXCEPT !.st = st, !.tv = <<>>]
 AccValue(h, c) == IF h.kind = "type" /\ h.ty = "" /\ ~h.end /\ h.tag \in {NScript, NStyle}
                   THEN [h EXCEPT !.tv = TypeAdd(@, c)] ELSE h
@@ -302,6 +302,7 @@ Slot(h) ==
            [] h.lang = "json" -> JSONSlot(h.sub)
            [] h.elem \in {NTitle, NTextarea} -> "rcdata"
            [] h.elem = NScript -> "script-data"
+           [] h.elem = NStyle -> "style-data"
            [] OTHER -> "rawtext"
     [] OTHER -> "undefined"
 \* kind of the attribute whose value is being written: plain / url / srcset / event / style / type
